@@ -95,6 +95,51 @@ def order_2pos(a01: bool, a02: bool, a10: bool, a12: bool, a20: bool, a21: bool,
     return H.done(x == y)
 
 
+def registration_order(e0: bool, e1: bool, e2: bool, t0: bool, t1: bool, t2: bool, p: int, recv: bool) -> bool:
+    """
+    pre: 0 <= p < 6
+    post: _
+    """
+    # real contexts: the same overloads with the same exclusive flags registered in two different orders must give the
+    # same layers (collect_functions) and the same call outcome
+    from yaql.language import contexts, exceptions, specs
+    from props import c05_bind as B
+    TF = [(False,), (True,)]
+    excl = [TF[int(e0)][0], TF[int(e1)][0], TF[int(e2)][0]]          # realised: one path per combination
+    typed = [TF[int(t0)][0], TF[int(t1)][0], TF[int(t2)][0]]
+    recv = TF[int(recv)][0]
+    layers = list(LAYERS)
+    order = X.PERMS3[p]
+
+    def build(reg_order):
+        nl = max(layers) + 1
+        chain = []
+        parent = B.ROOT
+        for lv in range(nl):
+            parent = contexts.Context(parent)
+            chain.insert(0, parent)
+        fds = []
+        for i in range(3):
+            def payload(x, _i=i):
+                return ('ran', _i)
+            fd = specs.get_function_definition(payload, name='f', method=True)
+            fd.set_parameter('x', int if typed[i] else str, overwrite=True)
+            fd.meta['cid'] = i
+            fds.append(fd)
+        for i in reg_order:
+            chain[layers[i]].register_function(fds[i], exclusive=excl[i])
+        shape = [sorted(fd.meta['cid'] for fd in layer) for layer in chain[0].collect_functions('f')]
+        try:
+            got = chain[0]('f', B.ENG, receiver=1)() if recv else chain[0]('f', B.ENG)(1)
+        except (exceptions.NoMatchingFunctionException, exceptions.NoMatchingMethodException,
+                exceptions.AmbiguousFunctionException, exceptions.AmbiguousMethodException) as e:
+            got = type(e).__name__
+        return shape, got
+    with H.NoTracing():
+        ok = build(order) == build(X.PERMS3[0])
+    return H.done(ok)
+
+
 def fam1(s01, s02, s10, s12, s20, s21, m0, m1, m2, d0, d1, d2, z0, z1, z2, k0, k1, k2, recv):
     npos = 2 if recv else 1      # with a receiver there is one more position (the receiver itself)
     z = [z0, z1, z2]
@@ -128,6 +173,11 @@ def conditions(tier, seed):
                             'bounds': '3 candidates in layers %s, enumeration order %s vs identity, no specialization, '
                                       'symbolic map_args/get_delegate/lazy-position/no_kwargs answers' % (
                                           layers, X.PERMS3[p])})
+    for layers in ([0, 0, 0], [0, 0, 1], [0, 1, 1], [0, 1, 2]):
+        out.append({'name': 'registration_order[layers=%s]' % ''.join(map(str, layers)), 'func': 'registration_order',
+                    'timeout': t, 'param': {'layers': layers},
+                    'bounds': '3 real overloads (int- or str-typed, symbolic) in real contexts (layers %s), symbolic exclusive '
+                              'flag per registration, all 6 registration orders vs identity, call f(1) with/without receiver' % layers})
     for p in ([3] if tier == 'quick' else [1, 2, 3, 4, 5]):
         out.append({'name': 'order_2pos[perm=%d]' % p, 'func': 'order_2pos', 'timeout': 2 * t, 'param': {'perm': p},
                     'bounds': '3 matching candidates in one layer, 2 argument positions with independent symbolic strict '
@@ -137,6 +187,12 @@ def conditions(tier, seed):
 
 def replay(cond, args):
     a = dict(args)
+    if cond['func'] == 'registration_order':
+        ok = registration_order(**a)
+        return {'reproduced': not ok, 'key': 'C06/registration-order',
+                'what': 'three overloads of f in context layers %s with exclusive flags %s registered in order %s vs %s: '
+                        'collect_functions / the outcome of f(1) differ' % (LAYERS, [a['e0'], a['e1'], a['e2']],
+                                                                           X.PERMS3[a['p']], X.PERMS3[0])}
     if cond['func'] == 'order_2pos':
         S = [X.mat3(a['a01'], a['a02'], a['a10'], a['a12'], a['a20'], a['a21']),
              X.mat3(a['b01'], a['b02'], a['b10'], a['b12'], a['b20'], a['b21'])]
